@@ -7,6 +7,8 @@ PROPERTY = 'C15'
 def harnesses(tier):
     if tier == 'quick':
         return [
+            {'name': 'assign-seq3-N3-W1', 'fn': graph.h_step,
+             'cfg': {'prop': 'C15', 'N': 3, 'nW': 1, 'seqlen': 3, 'links': False, 'ops': ['set_children']}},
             {'name': 'sort-incomparable-key-N4', 'fn': graph.h_step,
              'cfg': {'prop': 'C15', 'N': 4, 'nW': 1, 'seqlen': 1, 'links': False, 'none_key': True, 'ops': ['ch_sort']}},
             {'name': 'earlier-view-N2', 'fn': graph.h_stale_view, 'cfg': {'N': 2, 'nW': 1, 'props': ['C15'], 'ops1': ['ch_remove', 'wbs_remove', 'set_parent'], 'ops2': ['ch_sort', 'ch_reorder', 'ch_insert', 'ch_move', 'ch_remove']}},
